@@ -280,6 +280,11 @@ def run_world(desc: dict[str, Any], *, scoped: bool = True, capture_logs: bool =
     async def scenario(sim: Sim) -> None:
         if peering:
             kube.create('clusterkopfpeerings', None, peering.get('name', 'default'), {'apiVersion': 'kopf.dev/v1', 'kind': 'ClusterKopfPeering'})
+            for other, status in (peering.get('others') or {}).items():
+                # peering objects of other operator groups (another name): their records are none of this group's business
+                from kv import vtime
+                st = {k: {kk: (vtime.iso(sim.now()) if vv == '$now' else vv) for kk, vv in rec.items()} for k, rec in status.items()}
+                kube.create('clusterkopfpeerings', None, other, {'apiVersion': 'kopf.dev/v1', 'kind': 'ClusterKopfPeering', 'status': st})
         for t, op, *args in desc.get('timeline', []):
             await sim.sleep_until(t)
             if op == 'start':
